@@ -49,7 +49,7 @@ DESCR = {0: "T = X*Y+Z", 1: "T = X*(Y*Z)", 2: "T = (X*Y)*Z", 3: "T = s*X+p*Y", 4
          36: "T = product(1+0.1*M,0)", 37: "T = mean(M*N,0)+maxval(M,0)-minval(N,0)", 38: "s2 = sum(M*spread<0>(X,m))", 39: "T = X*(Y*(Z*X))",
          40: "T = (X-Y)*(Y/Z)*atan2(X,Z)", 41: "T = -X*abs(Y)+sqrt(Z*Z+1)*tanh(X)", 42: "T = X", 43: "T = X*X(idx)", 44: "T = norm2(M,0)",
          45: "M2 = M.T().T()*transpose(transpose(N))", 46: "T = X*noalias(Y)", 47: "T = Z*noalias(sin(X)*Y)", 48: "T = noalias(sin(X)*Y)*Z",
-         49: "{adouble tmp = X(0)*Y(0);} s2 = product(1+0.1*X)", 50: "{adouble tmp ...} s2 = sum(X*Z)", 51: "{adouble tmp ...} s2 = maxval(X*Z)+minval(Y)+norm2(Z)+mean(X)", 52: "s2 = sum(diag_vector(M*N,-1))", 53: "s2 = sum(diag_vector(M*N,1))", 54: "s2 = sum(diag_vector(M*N))"}
+         49: "{adouble tmp = X(0)*Y(0);} s2 = product(1+0.1*X)", 50: "{adouble tmp ...} s2 = sum(X*Z)", 51: "{adouble tmp ...} s2 = maxval(X*Z)+minval(Y)+norm2(Z)+mean(X)", 52: "s2 = sum(diag_vector(M*N,-1))", 53: "s2 = sum(diag_vector(M*N,1))", 54: "s2 = sum(diag_vector(M*N))", 55: "M2.where(M>N) = M(__,reversed)*N", 56: "M2.where(N>0.3) = either_or(M*s, N(__,reversed))", 57: "M2.where(all) = M*N+spread<0>(X,m)"}
 VIEWS = ["plain", "stride 2", "reversed"]
 
 
